@@ -174,18 +174,30 @@ def gff_rows(f):
 
 
 def render_gff(genome, feats, seqid="ref", with_fasta=True, seqregion=True, mix=None):
-    """mix: a PRNG; with probability 0.4 the rows of different features are interleaved (each feature's own rows keep
-    their order), as in a coordinate-sorted GFF3 where a joined CDS has another feature's row between its rows."""
+    """mix: a PRNG; with probability 0.4 the rows of one feature are listed in descending or random order, and with
+    probability 0.4 the rows of different features are interleaved (as in a coordinate-sorted GFF3 where a joined CDS has
+    another feature's row between its rows).  Features must list their segments in ascending order (a rotated,
+    origin-spanning join has no GFF3 equivalent made of plain rows)."""
+    assert all(list(f.segments) == sorted(f.segments) for f in feats), "rotated join rendered as GFF3"
     out = ["##gff-version 3"]
     if seqregion:
         out.append("##sequence-region %s 1 %d" % (seqid, len(genome)))
     queues = []
     for i, f in enumerate(feats):
         q = []
-        for a, b, ph in gff_rows(f):
-            attrs = "ID=cds%d" % i + (";Name=%s" % f.name if f.named else "")
+        rows_f = gff_rows(f)
+        noid = mix is not None and len(rows_f) == 1 and f.named and mix.random() < 0.35      # a one-row feature needs no ID
+        for a, b, ph in rows_f:
+            attrs = ("Name=%s" % f.name) if noid else "ID=cds%d" % i + (";Name=%s" % f.name if f.named else "")
             q.append("\t".join([seqid, "test", "CDS", str(a), str(b), ".", f.strand, str(ph), attrs]))
         queues.append(q)
+    if mix is not None:
+        for q in queues:
+            if len(q) > 1 and mix.random() < 0.4:       # GFF3 gives no meaning to the order of the rows of one feature:
+                if mix.random() < 0.5:                  # descending (NCBI lists reverse-strand CDS rows that way) or any order
+                    q.reverse()
+                else:
+                    mix.shuffle(q)
     if mix is not None and len(queues) > 1 and mix.random() < 0.4:
         while any(queues):
             q = mix.choice([q for q in queues if q])
